@@ -1752,6 +1752,25 @@ func contentConditioned(v ssa.Value) (string, token.Pos) {
 	seen := map[ssa.Value]bool{}
 	var res string
 	var at token.Pos
+	// the facts under which the piece e is chosen test the piece itself?
+	testsPiece := func(e ssa.Value, facts []core.EdgeFact) {
+		for _, ef := range facts {
+			f := ef.Fact
+			for _, side := range []ssa.Value{f.X, f.Y} {
+				if side == nil {
+					continue
+				}
+				if same(side, e) {
+					res, at = "its own text passes a test (compared with a constant)", condPos(ef.If)
+				}
+				if lc, ok := side.(*ssa.Call); ok {
+					if b, isB := lc.Call.Value.(*ssa.Builtin); isB && b.Name() == "len" && same(lc.Call.Args[0], e) {
+						res, at = "its own length passes a test", condPos(ef.If)
+					}
+				}
+			}
+		}
+	}
 	var rec func(v ssa.Value, depth int)
 	rec = func(v ssa.Value, depth int) {
 		if v == nil || seen[v] || depth > 8 || res != "" {
@@ -1801,6 +1820,11 @@ func contentConditioned(v ssa.Value) (string, token.Pos) {
 				if f := core.InfoOf(&call.Call).Static; f != nil && f.Blocks != nil && strings.HasPrefix(core.InfoOf(&call.Call).Pkg, core.ModulePath) {
 					for _, r := range core.Returns(f) {
 						if idx < len(r.Results) {
+							// a return of its own for each way the value is chosen (what the φ form above is after
+							// the single exit has been split): the facts that lead to this return
+							if isPiece(r.Results[idx]) {
+								testsPiece(r.Results[idx], core.DominatingFacts(r))
+							}
 							rec(r.Results[idx], depth+1)
 						}
 					}
